@@ -57,6 +57,7 @@ class Plugin:
             small = rng.random() < 0.5
             cases.append(H.gen_history(rng, rng.randint(2, depth), small=small,
                                        udns=H.UDNS[:rng.randint(1, 6)]))
+        cases += [H.gen_refresh_history(rng) for _ in range(n // 6)]
         return cases
 
     def run_impl(self, case):
